@@ -586,6 +586,22 @@ def run_script_reuse(case):
                         "script_units": usys, "output_units": got[2], "expected_output_units": refs[kind_][2],
                         "case": {"seed": sd, "idx": idx}})
             break
+    if not bad:
+        # ... and the script stays the caller's to edit: new requested times (t_max follows them by default) after the script
+        # has been through engines give what the same edit gives on a script no engine has seen
+        new_ts = [0.0, 4 * dt, 9 * dt, 14 * dt]
+        fresh_ = pristine.copy()
+        for sc_ in (script, fresh_):
+            sc_.t_sample = st.UnitArray(new_ts, "s")
+        kind_ = r.choice(engines.KINDS)
+        o1 = st.simulate_script(fresh_, engines.get(kind_))
+        o2 = st.simulate_script(script, engines.get(kind_))
+        counts["script_edit_after_use_checks"] = 1
+        if (np.array(o1.t.value).tobytes(), np.array(o1.data.value).tobytes()) != (np.array(o2.t.value).tobytes(), np.array(o2.data.value).tobytes()):
+            bad.append({"what": "a script edited after an engine has used it does not behave like the same edit of a pristine copy",
+                        "uses": uses, "edit": "t_sample = %r s" % new_ts, "engine": kind_, "samples_got": len(o2.t.value),
+                        "samples_expected": len(o1.t.value), "t_max_now": str(script.t_max), "t_max_expected": str(fresh_.t_max),
+                        "case": {"seed": sd, "idx": idx}})
     return {"bad": bad[:2], "counts": counts, "key": chash([desc, uses, usys]), "nontrivial": len(set(uses)) >= 2,
             "sample": {"uses": uses, "script_units": usys}}
 
